@@ -1,9 +1,391 @@
-import MlodaVerif.Model.Builtin
-import MlodaVerif.Model.BuiltinImpute
-import MlodaVerif.Model.BuiltinWindow
-import MlodaVerif.Model.BuiltinText
-open Builtin
+import MlodaVerif.Gen.BuiltinVocab
+import MlodaVerif.Lemmas.Builtin
+import MlodaVerif.Lemmas.BuiltinText
+/-! # C19 - built-in feature groups give the same values on every compute framework
 
+Full statement: for every multi-framework built-in group (aggregation, missing-value imputation, time windows, text
+cleaning), every operation / parameter and every input column, all framework implementations return the same values.
+
+The statement is **false** of the code as it is.  Below, per (group, operation, framework pair):
+* an *agreement theorem* for all columns (induction over the lists), under the exact hypothesis it needs, or
+* a closed *negation witness* (`decide +kernel`) where the implementations differ; each witness is an input of the
+  end-to-end differential run (`harness/corr/c19.py`) and a known finding in `findings.d/C19.json`.
+
+Standing: `Pd.*` / `Pa.*` and the pandas halves of the imputation / window / text models are models of *library
+conventions* (assumed, validated only by the differential run); the PythonDict halves and the Python loops of the PyArrow
+groups are modelled from mloda's own code.  Numbers are exact rationals; `std` is represented by its square. -/
+open Builtin Builtin.Text Gen.BuiltinVocab
+
+/-! ## the vocabularies read from the code are exactly what the models dispatch on (finite tables: `decide`) -/
+
+/-- every operation name in the code's vocabularies has a model on every framework implementing the group -/
+theorem C19.vocab_covered :
+    (∀ op ∈ aggregationTypes, (Pd.series op).isSome ∧ (Pa.reduce op).isSome) ∧
+    (∀ op ∈ imputationMethods, (Method.ofString? op).isSome) ∧
+    (∀ op ∈ windowFunctions, (Pd.rolling op).isSome ∧ (Pa.window op).isSome) ∧
+    (∀ op ∈ cleaningOperations, (Op.ofString? op).isSome) := by decide
+
+/-- the framework implementations that exist are the ones modelled (a new implementation breaks this theorem) -/
+theorem C19.implementations_modelled :
+    implementations = [("aggr", ["pd", "pa"]), ("impute", ["pd", "pa", "py"]), ("window", ["pd", "pa"]), ("text", ["pd", "py"])] ∧
+    nltkAvailable = false := by decide
+
+/-! ## aggregation: Pandas vs PyArrow -/
+
+/-- min / max / avg / mean / count / median agree on **every** column (median: middle-of-sorted = linear 0.5-quantile) -/
+theorem C19.agg_agree (op : String) (hop : op ∈ ["min", "max", "avg", "mean", "count", "median"])
+    (c : List (Option Rat)) : pandasAggr op c = arrowAggr op c := by
+  simp only [List.mem_cons, List.not_mem_nil, or_false] at hop
+  rcases hop with rfl | rfl | rfl | rfl | rfl | rfl
+  · rfl
+  · rfl
+  · rfl
+  · rfl
+  · rfl
+  · show some _ = some _
+    simp [median_eq_quantileHalf]
+
+/-- the two median conventions coincide on every list of numbers -/
+theorem C19.agg_median_agree (l : List Rat) : medianR l = quantileHalfR l := median_eq_quantileHalf l
+
+/-- sum agrees exactly on the columns with at least one valid value -/
+theorem C19.agg_sum_agree (c : List (Option Rat)) (h : valid c ≠ []) : pandasAggr "sum" c = arrowAggr "sum" c := by
+  show some _ = some _
+  simp [h]
+
+/-- ... and differs on the all-null column (pandas 0, pyarrow null) -/
+theorem C19.agg_sum_allnull_witness :
+    pandasAggr "sum" [none, none] = some [⟨some 0, false⟩, ⟨some 0, false⟩] ∧
+    arrowAggr "sum" [none, none] = some [⟨none, false⟩, ⟨none, false⟩] := by decide +kernel
+
+/- FULL STATEMENT (false): ∀ c, pandasAggr "var" c = arrowAggr "var" c   (likewise "std") -/
+
+/-- var / std agree (both 0) on columns whose ≥ 2 valid values are all equal -/
+theorem C19.agg_var_agree_constant (c : List (Option Rat)) (v : Rat) (hc : ∀ x ∈ valid c, x = v)
+    (hn : 2 ≤ (valid c).length) :
+    pandasAggr "var" c = arrowAggr "var" c ∧ pandasAggr "std" c = arrowAggr "std" c ∧
+    pandasAggr "var" c = some (List.replicate c.length ⟨some 0, false⟩) := by
+  have h1 : varR 1 (valid c) = some 0 := by
+    have hne : ((valid c).length : Rat) ≠ 0 := natCast_ne_zero (by omega)
+    have : ¬ ((valid c).length ≤ 1) := by omega
+    simp only [varR, this, if_false, sumR_const v _ hc]
+    rw [Rat.mul_comm, Rat.mul_div_cancel hne, ssd_const v _ hc]
+    rw [Rat.div_def, Rat.zero_mul]
+  have h0 : varR 0 (valid c) = some 0 := by
+    have hne : ((valid c).length : Rat) ≠ 0 := natCast_ne_zero (by omega)
+    have : ¬ ((valid c).length ≤ 0) := by omega
+    simp only [varR, this, if_false, sumR_const v _ hc]
+    rw [Rat.mul_comm, Rat.mul_div_cancel hne, ssd_const v _ hc]
+    rw [Rat.div_def, Rat.zero_mul]
+  refine ⟨?_, ?_, ?_⟩
+  · show some _ = some _
+    simp [h1, h0]
+  · show some _ = some _
+    simp [h1, h0]
+  · show some _ = some _
+    simp [h1]
+
+/-- the exact relation between the two conventions: `(n-1)·sample variance = n·population variance` -/
+theorem C19.agg_var_relation (l : List Rat) (hn : 2 ≤ l.length) :
+    ∃ p a, varR 1 l = some p ∧ varR 0 l = some a ∧ p * ((l.length - 1 : Nat) : Rat) = a * (l.length : Rat) := by
+  have h1 : ¬ (l.length ≤ 1) := by omega
+  have h0 : ¬ (l.length ≤ 0) := by omega
+  refine ⟨ssd (sumR l / (l.length : Rat)) l / ((l.length - 1 : Nat) : Rat),
+    ssd (sumR l / (l.length : Rat)) l / ((l.length - 0 : Nat) : Rat), by simp [varR, h1], by simp [varR, h0], ?_⟩
+  rw [Rat.div_mul_cancel (natCast_ne_zero (by omega)), Nat.sub_zero, Rat.div_mul_cancel (natCast_ne_zero (by omega))]
+
+/-- sample (pandas, ddof = 1) vs population (pyarrow, ddof = 0) variance -/
 theorem C19.agg_var_ddof_witness :
-    (Pd.series "var").map (· [some 1, some 2]) = some ⟨some (1/2), false⟩ ∧
-    (Pa.reduce "var").map (· [some 1, some 2]) = some ⟨some (1/4), false⟩ := by decide +kernel
+    pandasAggr "var" [some 1, some 2] = some [⟨some (1/2), false⟩, ⟨some (1/2), false⟩] ∧
+    arrowAggr "var" [some 1, some 2] = some [⟨some (1/4), false⟩, ⟨some (1/4), false⟩] := by decide +kernel
+
+/-- a single valid value: pandas null, pyarrow 0 -/
+theorem C19.agg_var_single_witness :
+    pandasAggr "std" [some 3] = some [⟨none, true⟩] ∧ arrowAggr "std" [some 3] = some [⟨some 0, true⟩] := by
+  decide +kernel
+
+/-! ## imputation: Pandas vs PyArrow vs PythonDict -/
+
+section impute
+variable {α : Type} [DecidableEq α]
+
+/-- ffill: the three implementations are extensionally equal on every column (any value type, any options) -/
+theorem C19.impute_ffill_agree (o : Ops α) (isInt : Bool) (const : Option α) (c : List (Option α)) :
+    pandasImpute o .ffill const c = dictImpute o .ffill const c ∧
+    arrowImpute o isInt .ffill const c = dictImpute o .ffill const c := by
+  constructor
+  · simp only [pandasImpute, dictImpute, pdFfill_eq_loop]
+  · simp only [arrowImpute, dictImpute]
+    cases h : hasNull c with
+    | false => simp [(hasNull_iff_nullCount c).mp h]
+    | true =>
+      have : nullCount c ≠ 0 := fun h0 => by simp [(hasNull_iff_nullCount c).mpr h0] at h
+      simp [this]
+
+/-- bfill: likewise -/
+theorem C19.impute_bfill_agree (o : Ops α) (isInt : Bool) (const : Option α) (c : List (Option α)) :
+    pandasImpute o .bfill const c = dictImpute o .bfill const c ∧
+    arrowImpute o isInt .bfill const c = dictImpute o .bfill const c := by
+  constructor
+  · simp only [pandasImpute, dictImpute, pdBfill_eq_loop]
+  · simp only [arrowImpute, dictImpute]
+    cases h : hasNull c with
+    | false => simp [(hasNull_iff_nullCount c).mp h]
+    | true =>
+      have : nullCount c ≠ 0 := fun h0 => by simp [(hasNull_iff_nullCount c).mpr h0] at h
+      simp [this]
+
+/-- ffill is idempotent -/
+theorem C19.ffill_idempotent (o : Ops α) (const : Option α) (c : List (Option α)) :
+    dictImpute o .ffill const (dictImpute o .ffill const c) = dictImpute o .ffill const c := by
+  simp only [dictImpute]
+  cases h : hasNull c with
+  | false => simp [h]
+  | true =>
+    simp only [Bool.not_true, Bool.false_eq_true, if_false]
+    cases h2 : hasNull (ffillLoop none c) <;> simp [ffillLoop_idem]
+
+/-- after ffill no null follows a valid entry: a column starting with a value has no null left -/
+theorem C19.ffill_complete_after_first_valid (o : Ops α) (const : Option α) (a : α) (c : List (Option α)) :
+    hasNull (dictImpute o .ffill const (some a :: c)) = false := by
+  simp only [dictImpute]
+  cases h : hasNull (some a :: c) with
+  | false => simp [h]
+  | true => simp [ffillLoop, hasNull_cons_some, ffillLoop_some_noNull]
+
+/-- constant imputation (non-integer column): all three agree on every column and leave no null -/
+theorem C19.impute_constant_agree (o : Ops α) (v : α) (c : List (Option α)) :
+    pandasImpute o .constant (some v) c = dictImpute o .constant (some v) c ∧
+    arrowImpute o false .constant (some v) c = dictImpute o .constant (some v) c ∧
+    hasNull (dictImpute o .constant (some v) c) = false := by
+  refine ⟨by simp only [pandasImpute, dictImpute], ?_, ?_⟩
+  · simp only [arrowImpute, dictImpute]
+    cases h : hasNull c with
+    | false => simp [(hasNull_iff_nullCount c).mp h]
+    | true =>
+      have : nullCount c ≠ 0 := fun h0 => by simp [(hasNull_iff_nullCount c).mpr h0] at h
+      simp [this]
+  · simp only [dictImpute]
+    cases h : hasNull c with
+    | false => simp [h]
+    | true => simp [fillWith_some_noNull]
+
+end impute
+
+/-- the same guard on all three: constant imputation without a constant is rejected by the shared base class -/
+theorem C19.constant_requires_value (α : Type) :
+    constantGuard Method.constant (none : Option α) = .error "Constant value must be provided" := rfl
+
+/-- mean imputation of a non-integer numeric column: all three agree on every column -/
+theorem C19.impute_mean_agree (const : Option Rat) (c : List (Option Rat)) :
+    pandasImpute ratOps .mean const c = dictImpute ratOps .mean const c ∧
+    arrowImpute ratOps false .mean const c = dictImpute ratOps .mean const c := by
+  have hd : dictImpute ratOps .mean const c = if !hasNull c then c else fillWith (meanR (valid c)) c := by
+    simp only [dictImpute, ratOps]
+    by_cases hv : (valid c).isEmpty
+    · have : valid c = [] := by simpa using hv
+      simp [this, meanR, fillWith_none]
+    · simp [hv]
+  constructor
+  · rw [hd]; simp only [pandasImpute, ratOps]
+  · rw [hd]; simp only [arrowImpute, ratOps]
+    cases h : hasNull c with
+    | false => simp [(hasNull_iff_nullCount c).mp h]
+    | true =>
+      have : nullCount c ≠ 0 := fun h0 => by simp [(hasNull_iff_nullCount c).mpr h0] at h
+      simp [this]
+
+/-- median imputation of a non-integer numeric column: all three agree on every column -/
+theorem C19.impute_median_agree (const : Option Rat) (c : List (Option Rat)) :
+    pandasImpute ratOps .median const c = dictImpute ratOps .median const c ∧
+    arrowImpute ratOps false .median const c = dictImpute ratOps .median const c := by
+  have hd : dictImpute ratOps .median const c = if !hasNull c then c else fillWith (medianR (valid c)) c := by
+    simp only [dictImpute, ratOps]
+    by_cases hv : (valid c).isEmpty
+    · have : valid c = [] := by simpa using hv
+      simp [this, medianR, isort, fillWith_none]
+    · simp [hv]
+  constructor
+  · rw [hd]; simp only [pandasImpute, ratOps]
+  · rw [hd]; simp only [arrowImpute, ratOps, ← median_eq_quantileHalf]
+    cases h : hasNull c with
+    | false => simp [(hasNull_iff_nullCount c).mp h]
+    | true =>
+      have : nullCount c ≠ 0 := fun h0 => by simp [(hasNull_iff_nullCount c).mpr h0] at h
+      simp [this]
+
+/-- mean imputation leaves no null as soon as the column has one valid value -/
+theorem C19.impute_mean_no_null (const : Option Rat) (c : List (Option Rat)) (h : valid c ≠ []) :
+    hasNull (pandasImpute ratOps .mean const c) = false := by
+  simp only [pandasImpute, ratOps]
+  cases hn : hasNull c with
+  | false => simp [hn]
+  | true =>
+    have : meanR (valid c) = some (sumR (valid c) / ((valid c).length : Rat)) := by simp [meanR, h]
+    simp [this, fillWith_some_noNull]
+
+/-- integer column on PyArrow: `pc.fill_null` truncates the fractional mean (pandas / python-dict keep 5/2) -/
+theorem C19.impute_mean_int_trunc_witness :
+    arrowImpute ratOps true .mean none [some 1, none, some 4] = [some 1, some 2, some 4] ∧
+    pandasImpute ratOps .mean none [some 1, none, some 4] = [some 1, some (5/2), some 4] ∧
+    dictImpute ratOps .mean none [some 1, none, some 4] = [some 1, some (5/2), some 4] := by decide +kernel
+
+/- FULL STATEMENT (false): ∀ c, pandasImpute o .mode k c = dictImpute o .mode k c = arrowImpute o i .mode k c -/
+
+/-- mode: pandas (smallest) and python-dict (first seen) agree whenever the most frequent valid value is unique -/
+theorem C19.impute_mode_pandas_dict_agree_unique {α : Type} [DecidableEq α] (o : Ops α) (const : Option α)
+    (c : List (Option α)) (h : ∀ x ∈ modes (valid c), ∀ y ∈ modes (valid c), x = y) :
+    pandasImpute o .mode const c = dictImpute o .mode const c := by
+  simp only [pandasImpute, dictImpute, smallestMode_eq_firstSeen o.le (valid c) h]
+  by_cases hv : (valid c).isEmpty
+  · have : valid c = [] := by simpa using hv
+    simp [this, firstSeenMode, fillWith_none]
+  · simp [hv]
+
+/-- mode: pyarrow (value_counts incl. null) and python-dict agree whenever some value is more frequent than null -/
+theorem C19.impute_mode_arrow_dict_agree {α : Type} [DecidableEq α] (o : Ops α) (isInt : Bool) (const : Option α)
+    (c : List (Option α)) (v : α) (hv : v ∈ valid c) (hlt : nullCount c < (valid c).count v) :
+    arrowImpute o isInt .mode const c = dictImpute o .mode const c := by
+  have hne : (valid c).isEmpty = false := by
+    cases hvc : valid c with
+    | nil => simp [hvc] at hv
+    | cons _ _ => rfl
+  simp only [arrowImpute, dictImpute, firstSeenMode_with_nulls c v hv hlt, hne]
+  cases h : hasNull c with
+  | false => simp [(hasNull_iff_nullCount c).mp h]
+  | true =>
+    have : nullCount c ≠ 0 := fun h0 => by simp [(hasNull_iff_nullCount c).mpr h0] at h
+    cases hm : firstSeenMode (valid c) with
+    | none => simp [this, fillWith_none]
+    | some m => simp [this]
+
+/-- tie between 3 and 1: pandas fills with the smallest (1), pyarrow and python-dict with the first seen (3) -/
+theorem C19.impute_mode_tie_witness :
+    pandasImpute ratOps .mode none [some 3, some 1, none, some 1, some 3] = [some 3, some 1, some 1, some 1, some 3] ∧
+    dictImpute ratOps .mode none [some 3, some 1, none, some 1, some 3] = [some 3, some 1, some 3, some 1, some 3] ∧
+    arrowImpute ratOps false .mode none [some 3, some 1, none, some 1, some 3] = [some 3, some 1, some 3, some 1, some 3] := by
+  decide +kernel
+
+/-- null is the most frequent "value" for pyarrow: nothing is imputed -/
+theorem C19.impute_mode_arrow_null_witness :
+    arrowImpute ratOps false .mode none [none, some 1, none] = [none, some 1, none] ∧
+    dictImpute ratOps .mode none [none, some 1, none] = [some 1, some 1, some 1] ∧
+    pandasImpute ratOps .mode none [none, some 1, none] = [some 1, some 1, some 1] := by decide +kernel
+
+/-! ### grouped imputation -/
+
+/-- grouped ffill / bfill: pandas (`groupby.transform(ffill)`) and python-dict (loop over the group's rows) agree for every
+column and every key assignment (numeric columns; on string columns python-dict raises, see the witness below) -/
+theorem C19.impute_grouped_fill_agree (const : Option Rat) (keys : List Nat) (c : List (Option Rat)) :
+    dictGrouped ratOps .ffill const keys c = .ok (pandasGrouped ratOps .ffill const keys c) ∧
+    dictGrouped ratOps .bfill const keys c = .ok (pandasGrouped ratOps .bfill const keys c) := by
+  have e1 : (pdFfill : List (Option Rat) → _) = ffillLoop none := funext pdFfill_eq_loop
+  have e2 : (pdBfill : List (Option Rat) → _) = fun g => (bfillLoop g).1 := funext pdBfill_eq_loop
+  constructor
+  · simp only [dictGrouped, pandasGrouped, e1, ratOps]
+    cases hasNull c <;> simp
+  · simp only [dictGrouped, pandasGrouped, e2, ratOps]
+    cases hasNull c <;> simp
+
+/-- grouped ffill on PyArrow compares group-local with global indices (rows of group b / a get later / wrong values) -/
+theorem C19.impute_grouped_ffill_arrow_witness :
+    arrowGrouped ratOps false .ffill none [0, 0, 1, 1, 0, 1, 2, 0] [some 1, none, some 2, none, none, some (1/2), none, some 4]
+      = [some 1, some 1, some 2, some (1/2), some 4, some (1/2), none, some 4] ∧
+    pandasGrouped ratOps .ffill none [0, 0, 1, 1, 0, 1, 2, 0] [some 1, none, some 2, none, none, some (1/2), none, some 4]
+      = [some 1, some 1, some 2, some 2, some 1, some (1/2), none, some 4] ∧
+    dictGrouped ratOps .ffill none [0, 0, 1, 1, 0, 1, 2, 0] [some 1, none, some 2, none, none, some (1/2), none, some 4]
+      = .ok [some 1, some 1, some 2, some 2, some 1, some (1/2), none, some 4] := by
+  decide +kernel
+
+/-- grouped mode with an all-null group: python-dict falls back to the overall mode, pandas leaves the null -/
+theorem C19.impute_grouped_mode_fallback_witness :
+    pandasGrouped ratOps .mode none [0, 0, 1, 2] [some 1, none, some 2, none] = [some 1, some 1, some 2, none] ∧
+    dictGrouped ratOps .mode none [0, 0, 1, 2] [some 1, none, some 2, none] = .ok [some 1, some 1, some 2, some 1] := by
+  decide +kernel
+
+/-- grouped imputation of a string column: python-dict raises (statistics.mean of strings), pandas imputes -/
+theorem C19.impute_grouped_string_dict_witness :
+    dictGrouped strOps .ffill none [1, 1, 0, 1] [some "", some "", some "B", none] =
+      .error "TypeError: statistics.mean of non-numeric values" ∧
+    pandasGrouped strOps .ffill none [1, 1, 0, 1] [some "", some "", some "B", none] = [some "", some "", some "B", some ""] := by
+  decide +kernel
+
+/-! ## time windows: Pandas vs PyArrow -/
+
+/- FULL STATEMENT (false): ∀ op w times c, pandasWindow op w times c = arrowWindow op w times c -/
+
+/-- on rows already ordered by reference time, every window function except std / var gives the same column on both
+frameworks, for every window size and every value column -/
+theorem C19.window_agree_sorted (op : String)
+    (hop : op ∈ ["sum", "min", "max", "avg", "mean", "count", "median", "first", "last"])
+    (w : Nat) (times : List Int) (c : List (Option Rat)) (hs : times.Pairwise (· ≤ ·)) :
+    pandasWindow op w times c = arrowWindow op w times c := by
+  unfold pandasWindow arrowWindow
+  rw [rolling_eq_window op hop, sortIdx_of_sorted times hs]
+  cases Pa.window op with
+  | none => rfl
+  | some f =>
+    simp only [Option.map_some]
+    congr 1
+    have hl : (windowsSorted f w (takeIdx c (List.range times.length))).length = times.length := by
+      simp [windowsSorted, takeIdx]
+    have := unsort_range (windowsSorted f w (takeIdx c (List.range times.length)))
+    rw [hl] at this
+    exact this.symm
+
+/-- unsorted time column: pandas leaves the results in time order, pyarrow returns them to their rows -/
+theorem C19.window_unsorted_witness :
+    pandasWindow "sum" 2 [3, 1, 2, 0] [some 1, some 3, some 2, some 4] =
+      some [⟨some 4, false⟩, ⟨some 7, false⟩, ⟨some 5, false⟩, ⟨some 3, false⟩] ∧
+    arrowWindow "sum" 2 [3, 1, 2, 0] [some 1, some 3, some 2, some 4] =
+      some [⟨some 3, false⟩, ⟨some 7, false⟩, ⟨some 5, false⟩, ⟨some 4, false⟩] := by decide +kernel
+
+/-- rolling var: pandas sample variance (null for one observation), pyarrow population variance -/
+theorem C19.window_var_ddof_witness :
+    pandasWindow "var" 2 [0, 1] [some 1, some 2] = some [⟨none, false⟩, ⟨some (1/2), false⟩] ∧
+    arrowWindow "var" 2 [0, 1] [some 1, some 2] = some [⟨some 0, false⟩, ⟨some (1/4), false⟩] := by decide +kernel
+
+/-! ## text cleaning: Pandas vs PythonDict -/
+
+/- FULL STATEMENT (false): ∀ ops c, pandasClean ops c = .ok (dictClean ops c) -/
+
+/-- every sequence of cleaning operations gives the same result on both frameworks for every null-free column whose
+strings contain none of the characters on which the two regex engines' `\s` differ (\v, 0x1c–0x1f) -/
+theorem C19.text_agree (ops : List Op) (c : List Str) (h : ∀ s ∈ c, ∀ ch ∈ s, oddSpace ch = false) :
+    pandasClean ops (c.map some) = .ok (dictClean ops (c.map some)) := by
+  have hnn : (c.map some).any (·.isNone) = false := by simp
+  simp only [pandasClean, hnn, Bool.false_and, Bool.false_eq_true, if_false, dictClean, List.map_map]
+  congr 1
+  apply List.map_congr_left
+  intro s hs
+  simp [foldl_agree ops s (h s hs)]
+
+/-- null entry: python-dict cleans "", pandas keeps the null or raises -/
+theorem C19.text_null_witness :
+    pandasClean [.normalizeWhitespace] [some "a".toList, none] = .ok [some "a".toList, none] ∧
+    dictClean [.normalizeWhitespace] [some "a".toList, none] = [some "a".toList, some []] ∧
+    pandasClean [.normalize] [some "a".toList, none] = .error "TypeError/AttributeError on a null entry" := by decide
+
+/-- vertical tab: white space for Python's `re`, not for the RE2 engine behind pandas' str Series -/
+theorem C19.text_whitespace_witness :
+    pandasClean [.normalizeWhitespace] [some "a\x0bb".toList] = .ok [some "a\x0bb".toList] ∧
+    dictClean [.normalizeWhitespace] [some "a\x0bb".toList] = [some "a b".toList] := by decide
+
+/-! ## non-vacuity: concrete non-trivial values meeting the hypotheses (tests, not proofs of the property) -/
+
+example : pandasAggr "median" [some 3, none, some 1, some 2, some 5] = some (List.replicate 5 ⟨some (5/2), false⟩) := by decide +kernel
+example : valid [some (1 : Rat), none, some 2] ≠ [] ∧ pandasAggr "sum" [some 1, none, some 2] = some (List.replicate 3 ⟨some 3, false⟩) := by decide +kernel
+example : (∀ x ∈ valid [some (2 : Rat), none, some 2], x = 2) ∧ 2 ≤ (valid [some (2 : Rat), none, some 2]).length := by decide +kernel
+example : dictImpute ratOps .ffill none [none, some 1, none, none, some 2, none] = [none, some 1, some 1, some 1, some 2, some 2] := by decide +kernel
+example : pandasImpute ratOps .bfill none [none, some 1, none, none, some 2, none] = [some 1, some 1, some 2, some 2, some 2, none] := by decide +kernel
+example : pandasImpute ratOps .mean none [some 1, none, some 2] = [some 1, some (3/2), some 2] := by decide +kernel
+example : (∀ x ∈ modes (valid [some (2 : Rat), none, some 1, some 2]), ∀ y ∈ modes (valid [some (2 : Rat), none, some 1, some 2]), x = y) ∧
+    pandasImpute ratOps .mode none [some 2, none, some 1, some 2] = [some 2, some 2, some 1, some 2] := by decide +kernel
+example : nullCount [some (2 : Rat), none, some 1, some 2] < (valid [some (2 : Rat), none, some 1, some 2]).count 2 ∧
+    arrowImpute ratOps false .mode none [some 2, none, some 1, some 2] = [some 2, some 2, some 1, some 2] := by decide +kernel
+example : pandasGrouped ratOps .ffill none [0, 1, 0, 1] [some 1, some 2, none, none] = [some 1, some 2, some 1, some 2] := by decide +kernel
+example : ([0, 2, 5] : List Int).Pairwise (· ≤ ·) ∧
+    arrowWindow "avg" 2 [0, 2, 5] [some 1, none, some 4] = some [⟨some 1, false⟩, ⟨some 1, false⟩, ⟨some 4, false⟩] := by decide +kernel
+example : (∀ s ∈ ["  Hello,  World! ".toList], ∀ ch ∈ s, oddSpace ch = false) ∧
+    dictClean [.normalize, .removePunctuation, .normalizeWhitespace] [some "  Hello,  World! ".toList] = [some "hello world".toList] := by decide
+example : dictClean [.removeUrls] [some "see http://x.y/z or me@a.co now".toList] = [some "see  or  now".toList] := by decide
